@@ -39,7 +39,7 @@ var fieldWritersTypes = []struct {
 	{"nsqadmin", "NSQAdmin", []string{"C17", "C18"}},
 	{"nsqadmin", "httpServer", []string{"C17", "C18"}},
 	{"internal/auth", "State", []string{"C11"}},
-	{"nsqd", "Options", []string{"C09", "C10", "C11"}},
+	{"nsqd", "Options", []string{"C03", "C04", "C09", "C10", "C11"}},
 	{"nsqlookupd", "Options", []string{"C14"}},
 	{"nsqadmin", "Options", []string{"C17"}},
 }
